@@ -204,6 +204,7 @@ pub fn replay_rows(tlc_out: &str, bin: &str, rep: &mut Report) {
     for payload in tlc_rows(tlc_out, "ROW") {
         let Ok(row) = serde_json::from_str::<J>(&payload) else { continue };
         rep.count("rows");
+        rep.ctx = Some(json!({"sub": "lsp-replay", "row": payload}));
         n += 1;
         if server.is_none() {
             server = Server::start(bin);
